@@ -320,6 +320,34 @@ def main(tier, seed):
                                     db.close()
                                 db = fresh(csv)
                                 handle = db.measurement("m")
+        # callables producing an ill-typed set for points whose CURRENT tag set (or field set) is empty - every matched point: nothing to merge into does not
+        # mean nothing to check
+        for slot, bads in (("tags", [{"k": 7}, {"k": 1.5}, {5: "x"}, {"k": b"x"}, {"k": True}]), ("fields", [{"k": "x"}, {"k": True}, {5: 1.0}, {"k": b"1"}])):
+            for badmap in bads:
+                for how in ("update", "update_all", "measurement.update_all"):
+                    dbe = tf.TinyFlux(storage=ListStorage) if csv == "custom" else (tf.TinyFlux(os.path.join(tempfile.mkdtemp(dir=str(ck.work)), "db.csv")) if csv else tf.TinyFlux(storage=MemoryStorage))
+                    empty_tags = slot == "tags"
+                    for i_ in range(3):
+                        dbe.insert(tf.Point(time=T0 + timedelta(seconds=i_), measurement="e", tags=({} if empty_tags else {"t": "x"}), fields=({"f": float(i_)} if empty_tags else {})))
+                    before = [M.canon_point(x) for x in dbe.all(sorted=False)]
+                    fn = (lambda old, _m=badmap: dict(_m))
+                    sel = (tf.FieldQuery().f >= 0) if empty_tags else tf.TagQuery().t.exists()
+                    call = {"update": lambda: dbe.update(sel, **{slot: fn}), "update_all": lambda: dbe.update_all(**{slot: fn}),
+                            "measurement.update_all": lambda: dbe.measurement("e").update_all(**{slot: fn})}[how]
+                    r = raises(call)
+                    n_checks += 1
+                    bad = stored_ok(tf, dbe)
+                    after = [M.canon_point(x) for x in dbe.all(sorted=False)] if not bad else None
+                    if bad:
+                        note(f"{how}({slot}=<callable>) on points whose {slot} are empty", badmap, "an ill-typed value was stored", {"stored": bad[:3]})
+                    elif r is None:
+                        note(f"{how}({slot}=<callable>) on points whose {slot} are empty", badmap, "an ill-typed callable result was accepted")
+                    elif after != before:
+                        note(f"{how}({slot}=<callable>) on points whose {slot} are empty", badmap, "a rejected update changed the stored contents")
+                    try:
+                        dbe.close()
+                    except Exception:  # noqa
+                        pass
         # the mapping a Point already holds, edited IN PLACE by the caller and assigned back (the assignment is what validates), then inserted
         if not csv or True:
             for slot, good, bads in (("tags", "x", [7, 1.5, b"x", True]), ("fields", 1.0, ["x", True, b"1", [1]])):
@@ -435,6 +463,15 @@ def main(tier, seed):
     f.write_text("\n".join(lines) + "\n")
     rc, out = coqc_file(f, timeout=900)
     nums = parse_nat_list(out) if rc == 0 else None
+    # the same rejections with the interpreter started as `python -O` (assert statements stripped)
+    rc_o, out_o = sh([PY, "-O", str(VERIF / "harness" / "c14_optimized.py")], env=impl_env(), timeout=120)
+    try:
+        found_o = json.loads([l for l in out_o.splitlines() if l.startswith("[")][-1])
+    except Exception:  # noqa
+        found_o = [{"entry_point": "python -O child", "rejected": f"the child did not finish: {out_o[-300:]}"}]
+    for x in found_o[:2]:
+        note(f"{x.get('entry_point')} under python -O", x.get("value"), f"an ill-typed {x.get('slot', 'value')} was not rejected when the interpreter runs with -O (rejected: {x.get('rejected')})",
+             {"stored": x.get("stored", [])})
     if direct_bad:
         ck.violation(dict(direct_bad[0], more=direct_bad[1:]))
     if not b["ok"]:
